@@ -9,7 +9,7 @@ def main():
     c.trusted = ["Coq 8.16.1 kernel (coqc; vm_compute only in Examples)"] + rb.TRUSTED
     c.assumptions = rb.ASSUMPTIONS
     c.kind_filter = lambda k: k not in vlib.LIFETIME_KINDS     # lifetime/allocation kinds belong to C16 (rb owns nothing)
-    c.prove()
+    c.prove(['C06', 'C06_ptr'])    # C06_ptr: pointer-level model of rbtree.hpp refines the functional core
     rb.run(c)
     sys.exit(c.finish())
 
